@@ -12,6 +12,7 @@ import (
 
 	apayment "github.com/my-cloud/ruthenium/accessnode/presentation/api/payment"
 	awallet "github.com/my-cloud/ruthenium/accessnode/presentation/api/wallet"
+	"github.com/my-cloud/ruthenium/validatornode/application"
 	"github.com/my-cloud/ruthenium/validatornode/domain/ledger"
 )
 
@@ -477,7 +478,14 @@ func runViewsSuite(seed uint64, n int, out *Out, stats *Stats) {
 			// re-synced onto the network chain since (one node, one set of handlers, throughout)
 			young := NewNode(set, w.wallets[2].Addr)
 			young.Pool.Validate(w.now - set.Interval)
-			ys := backedSender(young)
+			var ys application.Sender = backedSender(young)
+			if i%6 == 0 {
+				// through the repository's own host, transport and client
+				if nb, ok := realSender(young); ok {
+					ys = nb
+					stats.Count("progress/asked through the real client over TCP")
+				}
+			}
 			ctl = apayment.NewProgressController(ys, set, watch2, &CapLogger{})
 			ctl.GetTransactionProgress(httptest.NewRecorder(), httptest.NewRequest("PUT", "/transaction/output/progress", bytes.NewReader(body)))
 			helperSync(young, now2, []*Peer{honestPeer("10.7.0.9:10600", v)})
